@@ -110,6 +110,8 @@ func walkLib(fs filesystem.FileSystem, dir string, depth int, budget *int) (*obs
 				k.Link, _ = rl.ReadLink(p)
 			} else if rl, ok := e.(interface{ ReadLink() (string, bool) }); ok {
 				k.Link, _ = rl.ReadLink()
+			} else if rl, ok := e.(interface{ Readlink() (string, error) }); ok {
+				k.Link, _ = rl.Readlink()
 			}
 			n.Kids = append(n.Kids, k)
 		default:
